@@ -466,7 +466,7 @@ func (ex *Exec) Concretize(t *Term, what string) uint64 {
 		return v
 	}
 	for i := 0; ; i++ {
-		if i > 4096 {
+		if i > 1024 {
 			if os.Getenv("GOSYMEX_DEBUG") != "" {
 				fmt.Fprintf(os.Stderr, "DEBUG concretize loop: t=%s model-eval=%d pos=%d replayN=%d facts=%v\n", t, Eval(t, ex.model), ex.pos, ex.replayN, len(ex.facts))
 				for _, c := range ex.pc {
@@ -475,7 +475,7 @@ func (ex *Exec) Concretize(t *Term, what string) uint64 {
 					}
 				}
 			}
-			ex.endPath("unsupported", "concretisation of "+what+" exceeds 4096 values")
+			ex.endPath("unsupported", "concretisation of "+what+" exceeds 1024 values")
 		}
 		var v uint64
 		if ex.pos < ex.replayN {
@@ -537,6 +537,19 @@ func (ex *Exec) Explore(run func()) {
 			ex.note(fmt.Sprintf("exploration truncated with %d pending prefixes", len(ex.stack)))
 			break
 		}
+		flood := ""
+		for l, n := range ex.perLabel {
+			if n >= 200 {
+				flood = l
+			}
+		}
+		if flood != "" {
+			// hundreds of counterexamples to one assertion (e.g. one per value of an enumerated
+			// length): the recorded witnesses decide; the unexplored rest is reported as truncated
+			ex.truncated = true
+			ex.note(fmt.Sprintf("exploration stopped after %d counterexamples to %q with %d pending prefixes", ex.perLabel[flood], flood, len(ex.stack)))
+			break
+		}
 		p := ex.stack[len(ex.stack)-1]
 		ex.stack = ex.stack[:len(ex.stack)-1]
 		ex.runPath(p, run)
@@ -575,6 +588,20 @@ func (ex *Exec) runPath(p pending, run func()) {
 	ex.fuel = ex.maxFuel
 	ex.depth = 0
 	end := ex.runGuarded(run)
+	if end.reason == "hang" {
+		// a blocked single goroutine (channel deadlock) is a candidate non-termination: record it as
+		// a witness (native replay under a watchdog decides)
+		func() {
+			defer func() { recover() }()
+			ex.ensureModel()
+		}()
+		if ex.model != nil {
+			ex.perLabel["harness:terminates"]++
+			if ex.perLabel["harness:terminates"] <= ex.maxViolPerLabel {
+				ex.violations = append(ex.violations, Violation{Label: "harness:terminates", Model: ex.modelNamed(ex.model), PathNo: ex.pathNo, Detail: end.detail})
+			}
+		}
+	}
 	ex.stats.Ends[end.reason]++
 	if len(ex.samples) < 12 || end.reason != "ok" && len(ex.samples) < 40 {
 		s := PathSample{PathNo: ex.pathNo, End: end.reason, Events: len(ex.events), Observed: append([]string(nil), ex.observed...)}
